@@ -10,11 +10,13 @@ from . import impl
 
 CODECS = ['ber', 'der', 'per', 'uper', 'oer', 'jer', 'xer', 'gser']
 BASE = {
-    'IA5String': [chr(c) for c in range(32, 127)],
-    'VisibleString': [chr(c) for c in range(32, 127)],
+    # (no backslash: asn1tools' grammar reads "\f", "\n", ... inside a character string value as escapes — pyparsing QuotedString —
+    #  which ASN.1 does not have; noted in DESIGN.md §6.2, not this family's business)
+    'IA5String': [chr(c) for c in range(32, 127) if c != 92],
+    'VisibleString': [chr(c) for c in range(32, 127) if c != 92],
     'PrintableString': list("ABCDEFGHIJKLMNOPQRSTUVWXYZabcdefghijklmnopqrstuvwxyz0123456789 '()+,-./:=?"),
     'NumericString': list(' 0123456789'),
-    'UTF8String': [chr(c) for c in range(32, 127)],
+    'UTF8String': [chr(c) for c in range(32, 127) if c != 92],
 }
 
 
